@@ -218,7 +218,7 @@ def main():
         jobs.append((name, blob, receiver, peer, expect, 1, ('correct', 'wrong-port', 'wrong-address', 'nick-only')))
         if True:
             jobs.append((name, blob, receiver, peer, expect, 2, ('correct',)))
-        if t == 'thorough' and name in ('fenced-after-silence', 'restarted-isolated-peer'):
+        if t == 'thorough' and os.environ.get('VERIF_DEEP') and name in ('fenced-after-silence', 'restarted-isolated-peer'):
             jobs.append((name, blob, receiver, peer, expect, 3, ('correct',)))
     workers = int(os.environ.get('VERIF_WORKERS', '16'))
     ctx = multiprocessing.get_context('fork')
@@ -236,7 +236,8 @@ def main():
     from ..explorer import run_batches, aggregate
     from ..report import seed
     global E1_DRIVER
-    cfgs = e1_configs(t)
+    from ..explorer import filter_deep
+    cfgs = filter_deep('C13', e1_configs(t))
     cap = int(os.environ.get('VERIF_CAP_S', '0')) or (None if t == 'quick' else 2400)
     known = set(out.findings)
 
